@@ -48,6 +48,7 @@ struct Stats {
     samples: Vec<String>,
     oracle_failures: usize,
     disagreements: usize,
+    cells: BTreeMap<String, usize>,
 }
 
 fn arg<'a>(args: &'a [String], name: &str) -> Option<&'a str> {
@@ -195,7 +196,12 @@ fn run_cases(
             }
             impl_outs.push(outs);
         }
-        let model_outs = model::run_batch(model, &all_lines)?;
+        let (model_outs, cov) = model::run_batch_stats(model, &all_lines)?;
+        for cell in cov.split(' ') {
+            if let Some((k, v)) = cell.split_once('=') {
+                *stats.cells.entry(k.to_string()).or_default() += v.parse::<usize>().unwrap_or(0);
+            }
+        }
         let mut k = 0;
         for (c, io) in chunk.iter().zip(impl_outs.iter()) {
             let mo = &model_outs[k..k + c.lines.len()];
@@ -395,6 +401,9 @@ fn cmd_run(args: &[String]) -> i32 {
                 for (k, v) in s.kinds {
                     *total.kinds.entry(k).or_default() += v;
                 }
+                for (k, v) in s.cells {
+                    *total.cells.entry(k).or_default() += v;
+                }
                 for (k, v) in s.len_hist {
                     *total.len_hist.entry(k).or_default() += v;
                 }
@@ -422,7 +431,7 @@ fn cmd_run(args: &[String]) -> i32 {
     let map_json = |m: &BTreeMap<String, usize>| format!("{{{}}}", m.iter().map(|(k, v)| format!("{}:{}", json_str(k), v)).collect::<Vec<_>>().join(","));
     let hist_json = format!("{{{}}}", total.len_hist.iter().map(|(k, v)| format!("\"<={}\":{}", k, v)).collect::<Vec<_>>().join(","));
     let json = format!(
-        "{{\"property\":{},\"tier\":{},\"seed\":{},\"cases\":{},\"lines\":{},\"distinct\":{},\"distinct_nontrivial\":{},\"families\":{},\"result_kinds\":{},\"request_length_hist\":{},\"samples\":[{}],\"oracle_failures\":{},\"model_disagreements\":{},\"failure\":{},\"wall_s\":{:.2}}}",
+        "{{\"property\":{},\"tier\":{},\"seed\":{},\"cases\":{},\"lines\":{},\"distinct\":{},\"distinct_nontrivial\":{},\"families\":{},\"result_kinds\":{},\"model_decoder_cells\":{},\"request_length_hist\":{},\"samples\":[{}],\"oracle_failures\":{},\"model_disagreements\":{},\"failure\":{},\"wall_s\":{:.2}}}",
         json_str(prop),
         json_str(if tier.thorough { "thorough" } else { "quick" }),
         seed,
@@ -432,6 +441,7 @@ fn cmd_run(args: &[String]) -> i32 {
         total.nontrivial,
         map_json(&total.families),
         map_json(&total.kinds),
+        map_json(&total.cells),
         hist_json,
         total.samples.join(","),
         total.oracle_failures,
